@@ -1,0 +1,25 @@
+//go:build verif
+
+package types
+
+// Verification hooks (build tag `verif` only): a yield callback that ValueStore.GC calls between
+// its phases, so that a correspondence harness can run writer sessions at exactly those points.
+// With the tag off, verifGCYield is the empty function of verif_hooks_off.go.
+
+var verifGCYieldFn func(point string)
+
+// VerifSetGCYield installs f, to be called synchronously by ValueStore.GC (generational path) at
+//
+//	"oldgen": the keeper is installed and the store root has joined the new-generation roots;
+//	          the old-generation mark has not started (gcState_OldGen);
+//	"newgen": the old generation has been marked and added to the store; the new-generation mark
+//	          has not started (gcState_NewGen).
+//
+// No lock of the ValueStore is held at either point.  Passing nil uninstalls the callback.
+func VerifSetGCYield(f func(point string)) { verifGCYieldFn = f }
+
+func verifGCYield(point string) {
+	if f := verifGCYieldFn; f != nil {
+		f(point)
+	}
+}
